@@ -15,6 +15,7 @@ def run(facts, tier):
         ("intersection rebuild", U.intersection_rebuild, 1, "matched entries moved out of the table are always re-inserted"),
         ("screens", lambda fa: T.screens(fa, ("theta/", "tuple/")), 9, "keys obey the strict Theta screens"),
         ("early stops", T.early_breaks, 5, "ordered-only shortcuts guarded by the right input"),
+        ("inferred emptiness", T.inferred_emptiness, 5, "a result may be flagged empty because it has no entries only when theta == MAX (truth table over source flag, no entries, estimation mode): an estimation-mode result without entries is not empty"),
         ("result claims", T.result_claims, 4, "on every structured path to the result of union / intersection / A-not-B: the ordered flag implies sorted entries (truth assignments consistent with the path), and the union result passes the trim to the nominal size after being filled"),
         ("ordered flag", T.ordered_flag_validity, 3, "a compact sketch that claims is_ordered_ has sorted entries: whenever the flag becomes true for an unordered source the guarded std::sort runs (truth table over other.is_ordered() x ordered)"),
         ("union reset", T.builder_reset, 2, "reset() restores the starting theta; the union's cached theta is re-read after the table reset"),
